@@ -236,6 +236,47 @@ func VerifPatchChain() {
 	verifrt.Assert(len(got) == 5, "the patch list holds one patch per distinct outcome under every interleaving")
 }
 
+// VerifPatchTwins: two different attempts yield the same patch. A and B are both fixed by
+// lib@2.0.0, which introduces N; the follow-ups {A,N} and {B,N} lead to different patches. Whatever
+// attempt finishes first, both follow-ups are made and the list is the canonical one.
+func VerifPatchTwins() {
+	base := []resolve.RequirementVersion{req("lib", "1.0.0")}
+	table := map[string]struct {
+		version string
+		vulns   []string
+	}{
+		"A":   {"2.0.0", []string{"N"}},
+		"B":   {"2.0.0", []string{"N"}},
+		"A+N": {"3.0.0", nil},
+		"B+N": {"4.0.0", nil},
+	}
+	fn := func(ids []string) common.StrategyResult {
+		verifrt.Yield()
+		res := common.StrategyResult{VulnIDs: ids}
+		t, ok := table[strings.Join(ids, "+")]
+		if !ok {
+			res.Err = common.ErrPatchImpossible
+			return res
+		}
+		res.Resolved = resolved([]resolve.RequirementVersion{req("lib", t.version)}, t.vulns...)
+		return res
+	}
+	orig := resolved(base, "A", "B")
+	want, err := common.ComputePatches(fn, orig, true) // canonical schedule
+	verifrt.Assert(err == nil, "patch computation succeeds")
+	verifrt.ExploreSchedules(true)
+	got, err := common.ComputePatches(fn, orig, true)
+	verifrt.ExploreSchedules(false)
+	verifrt.Assert(err == nil, "patch computation succeeds under every schedule")
+	verifrt.Reach("twins-computed")
+	verifrt.Assert(render(got) == render(want), "the patch list is the same under every goroutine interleaving")
+	sys := resolve.NPM.Semver()
+	for i := 0; i+1 < len(got); i++ {
+		verifrt.Assert(got[i].Compare(got[i+1], sys) < 0, "the patch list is sorted and has no duplicates")
+	}
+	verifrt.Assert(len(got) == 3, "the patch list holds one patch per distinct outcome under every interleaving")
+}
+
 // VerifTwin must be violated.
 func VerifTwin() {
 	base := []resolve.RequirementVersion{req("a", "1.0.0"), req("b", "1.0.0"), req("c", "1.0.0")}
